@@ -258,3 +258,58 @@ def f_store_cast(n, x):
 def t_dict_get(k):
     d = {"a": 1, "b": 2}
     return d.get(k, 0)
+
+
+def t_row_view(a):
+    b = np.copy(a)
+    for row in b:
+        row[0] += 1.0
+        row[0] = np.clip(row[0], 0.0, 10.0)
+    return b
+
+
+def f_row_view(a):
+    b = np.copy(a)
+    for row in b:
+        row[0] += 1.0
+    return b
+
+
+def t_argsort_fn(a):
+    return np.argsort(a) - np.argsort(a)
+
+
+def t_rng_integers_size(seed, n):
+    rng = np.random.default_rng(seed)
+    return rng.integers(1, 5, size=n)
+
+
+def f_rng_integers_size(seed, n):
+    rng = np.random.default_rng(seed)
+    return rng.integers(1, 5, size=n)
+
+
+def t_choice_norepl(seed, n, k):
+    rng = np.random.default_rng(seed)
+    return rng.choice(n, (k,), replace=False)
+
+
+def f_choice_repl(seed, n, k):
+    rng = np.random.default_rng(seed)
+    return rng.choice(n, (k,), replace=True)
+
+
+def t_betabinom(seed, n):
+    from scipy.stats import betabinom
+    rng = np.random.default_rng(seed)
+    rv = betabinom(n=n, a=3.0, b=1.0)
+    rv.random_state = rng
+    return rv.rvs(size=1) + 1
+
+
+def f_betabinom(seed, n):
+    from scipy.stats import betabinom
+    rng = np.random.default_rng(seed)
+    rv = betabinom(n=n, a=3.0, b=1.0)
+    rv.random_state = rng
+    return rv.rvs(size=1) + 1
